@@ -191,7 +191,7 @@ class Path(typing.Generic[H]):
         return self.joinpath(key)
 
     def __rtruediv__(self, key: Any) -> "Path[H]":
-        return Path(self._host, [key] + list(self.parts))
+        return Path(self._host, key, self._path)
 
     @property
     def parent(self) -> "Path[H]":
@@ -611,20 +611,22 @@ class _PathParents(Sequence[Path[H]], Generic[H]):
     of a path.  Don't try to construct it yourself.
     """
 
-    __slots__ = ("_pathcls", "_host", "_parts")
+    __slots__ = ("_pathcls", "_host", "_parents")
 
     def __init__(self, path: Path[H]):
         self._pathcls = type(path)
         self._host = path.host
-        self._parts = path.parts
+        # Delegate to pathlib: the root of an absolute path is not an
+        # ancestor-step of its own and negative indices are allowed.
+        self._parents = path._path.parents
 
     def __len__(self) -> int:
-        return len(self._parts)
+        return len(self._parents)
 
     def __getitem__(self, idx: int) -> Path[H]:  # type: ignore
-        if idx < 0 or idx >= len(self):
-            raise IndexError(idx)
-        return self._pathcls(self._host, *self._parts[: -idx - 1])
+        if isinstance(idx, slice):
+            return tuple(self[i] for i in range(*idx.indices(len(self))))  # type: ignore
+        return self._pathcls(self._host, self._parents[idx])
 
     def __repr__(self) -> str:
         return f"<{self._pathcls.__name__}.parents>"
